@@ -594,3 +594,48 @@ def name_table_specs(totals=None):
             vs.append({"ident": "V%d" % i, "disc": str(i * 2 if i > n // 2 else i), "rename": nm, "rename_raw": False})
         out.append({"repr": "u16", "vis": "pub", "ident": "E", "enum_attrs": [], "variants": vs})
     return out
+
+
+SPANS = [127, 128, 129, 255, 256, 257, 511, 512, 65535, 65536, 65537]
+
+
+def span_specs(spans=None):
+    """Enums with holes and seven runs whose MAX - MIN is exactly on / next to a power of two, and enums whose last
+    run crosses MIN + 2^8 / MIN + 2^16 while the first run holds the values 2^k below its tail (position tables and
+    bit sets keyed by the low bits of the discriminant)."""
+    out = []
+    for T in (spans or SPANS):
+        for r, base in (("i16", -40), ("u16", 7), ("i32", -1000), ("u64", 5)):
+            lo, hi = M.repr_domain(r)
+            if base + T > hi:
+                continue
+            vals = sorted({base, base + 1, base + 3, base + T // 3, base + T // 2, base + T // 2 + 1, base + T - 4, base + T - 2, base + T})
+            out.append(scope_spec(r, vals))
+    for B in (256, 65536):
+        for r, base in (("i16", -100), ("i32", -7), ("u32", 0), ("i64", -300)):
+            lo, hi = M.repr_domain(r)
+            if base + B + 4 > hi:
+                continue
+            vals = sorted(set(range(base, base + 6)) | {base + B // 3, base + B // 2} | set(range(base + B - 6, base + B + 5)))
+            out.append(scope_spec(r, vals))
+    return out
+
+
+def block_specs():
+    """Enums made of k equally spaced blocks of L values where the last (or first) block is longer or shorter than
+    the others (arithmetic fast paths for "regular" enums that verify all blocks but one)."""
+    out = []
+    for k in (3, 5):
+        for L in (1, 3):
+            for which in (-1, 0):
+                for delta in (-1, 1, 3):
+                    if L + delta < 1:
+                        continue
+                    stride = L + 4
+                    for r, base in (("i16", 100), ("u8", 0), ("i8", -60)):
+                        vals = []
+                        for b in range(k):
+                            ln = L + (delta if (b == k - 1 if which == -1 else b == 0) else 0)
+                            vals.extend(range(base + b * stride, base + b * stride + ln))
+                        out.append(scope_spec(r, sorted(set(vals))))
+    return out
